@@ -279,6 +279,10 @@ func c18Modules(c *Ctx, n int) {
 	factory := neatmath.NodeActivators
 	for i := 0; i < n; i++ {
 		k := 1 + r.Intn(8)
+		if r.Intn(200) == 0 {
+			k = pick(r, 9, 16, 17, 64, 255, 256, 257, 1000, 5000) // a module with many inputs
+			c.Count("module.vectors_of_9_to_5000_inputs", 1)
+		}
 		v := make([]float64, k)
 		mode := r.Intn(5)
 		for j := range v {
